@@ -377,6 +377,39 @@ func (k *Kube) Relist(kind string) []*Event {
 	return evs
 }
 
+// RelistQueue models a dropped watch followed by a relist: pending events of the kind are replaced by the
+// synthetic events a reflector computes from the difference between its cache and the fresh list (deletes
+// become tombstones). The view itself changes only when the events are delivered.
+func (k *Kube) RelistQueue(kind string) int {
+	view := k.views[kind]
+	var keys []string
+	for key := range view {
+		keys = append(keys, key)
+	}
+	for key := range k.objs[kind] {
+		if _, ok := view[key]; !ok {
+			keys = append(keys, key)
+		}
+	}
+	sort.Strings(keys)
+	var evs []*Event
+	for _, key := range keys {
+		old := view[key]
+		nw := k.objs[kind][key]
+		k.evSeq++
+		switch {
+		case nw == nil:
+			evs = append(evs, &Event{Type: Deleted, Kind: kind, Key: key, Old: old, Tombstone: true, Step: k.S.Steps, Seq: k.evSeq})
+		case old == nil:
+			evs = append(evs, &Event{Type: Added, Kind: kind, Key: key, New: nw, Step: k.S.Steps, Seq: k.evSeq})
+		case old.RV != nw.RV:
+			evs = append(evs, &Event{Type: Modified, Kind: kind, Key: key, Old: old, New: nw, Step: k.S.Steps, Seq: k.evSeq})
+		}
+	}
+	k.queues[kind] = evs
+	return len(evs)
+}
+
 // ---- request handling ------------------------------------------------------------------------------------
 
 // IsAPI reports whether op is an API-server call (as opposed to a lister/view read).
